@@ -212,6 +212,9 @@ def build(tier, seed):
     for op, n in chosen:
         confs.append((1, 3, [("count", 0, op, n)], ["c,d,DistinctCount,k0 %s %d" % (op, n)], False))
     confs.append((1, 3, [("unique", [0]), ("count", 0, ">=", 2)], ["c,u,IsUnique,k0", "c,d,DistinctCount,k0 >= 2"], False))
+    # the distinct count of the second pass over the same data starts from nothing
+    confs.append((1, 2, [("count", 0, "==", 1)], ["c,d,DistinctCount,k0 == 1"], True))
+    confs.append((1, 3, [("count", 0, ">=", 2)], ["c,d,DistinctCount,k0 >= 2"], True))
     confs.append((2, 3, [("unique", [0]), ("unique", [1])], ["c,u0,IsUnique,k0", "c,u1,IsUnique,k1"], False))
     if tier == "thorough":
         confs.append((3, 2, [("unique", [0, 1, 2])], ["c,u,IsUnique,\"k0,k1,k2\""], False))
